@@ -9,18 +9,18 @@ type OpMix map[string]int
 
 // GenParams bounds plan generation.
 type GenParams struct {
-	Mix        OpMix
-	MaxSteps   int
-	MaxNodes   int
-	Windows    []int
-	KV         bool
-	StorFaults bool // arm storage faults on some steps
-	ReorgMotif bool // append the shared-transaction reorganisation motif to some plans
+	Mix          OpMix
+	MaxSteps     int
+	MaxNodes     int
+	Windows      []int
+	KV           bool
+	StorFaults   bool // arm storage faults on some steps
+	ReorgMotif   bool // append the shared-transaction reorganisation motif to some plans
 	CatchUpMotif bool // append the multi-block catch-up motif to some plans
-	MapOrders  bool
-	SmallCache bool
-	Defer      bool
-	NoTinyUtxo bool // keep the utxo cache large (the known small-cache finding would end most runs early)
+	MapOrders    bool
+	SmallCache   bool
+	Defer        bool
+	NoTinyUtxo   bool // keep the utxo cache large (the known small-cache finding would end most runs early)
 }
 
 var kvKeys = []string{"k0", "k1", "k2", "k3"}
